@@ -487,6 +487,11 @@ var c02EndOfChunks = regexp.MustCompile(`(?m)^##$`)
 // so far, after every transport read. The class is: some read ended inside the reply (before its end-of-chunks marker) with a
 // line "##" - or a line beginning "##" cut right behind these two characters - already in view.
 func c02PrematureEnd(evs []simdev.Event, reply []byte) bool {
+	if len(reply) > 4 && bytes.Contains(reply[:len(reply)-3], []byte("\n##\n")) {
+		// a line that IS "##" in front of the end-of-chunks marker: in view whatever the reads were
+		return true
+	}
+
 	var stream []byte
 
 	var ends []int
